@@ -6,7 +6,7 @@
 EXTENDS Reference, TLC
 CONSTANTS L, Alphabet
 VARIABLES row, done
-Init == row \in UNION { [1..n -> Alphabet] : n \in 0..L } /\ done = FALSE
+Init == (\E n \in 0..L : row \in [1..n -> Alphabet]) /\ done = FALSE
 Next == ~done /\ done' = TRUE /\ UNCHANGED row
 MechEqualsRef == LET cr == CellRow(row) IN MechBlank(cr) = BlankQuoted(cr)
 KeepsColumns == LET cr == CellRow(row) b == BlankQuoted(cr) segs == QuoteSegs(cr) IN
